@@ -342,6 +342,33 @@ def fn_n3(items):
                 n += 1
                 if abs(v - tr(rho0, G[k], p)) > 1e-9:
                     viol.append(V('C07/N3/pauli/imaginary-phase', [li, L], 'expect(%s) = %s true %s' % (ref.g_to_str(G[k], p), v, tr(rho0, G[k], p))))
+        if L == N:
+            # pure N=3 state: bit-string probabilities and overlaps with states of every rank
+            tot = 0.0
+            for bits in itertools.product((0, 1), repeat=N):
+                b = int(''.join(str(x) for x in bits), 2)
+                v = float(st.get_prob(np.array(bits, dtype=lib.INT)))
+                tot += v
+                n += 1
+                if abs(v - rho0[b, b].real) > 1e-9:
+                    viol.append(V('C07/N3/get_prob', [li, L], 'get_prob(%s) = %s, <b|rho|b> = %s' % (bits, v, rho0[b, b].real)))
+            if abs(tot - 1) > 1e-9:
+                viol.append(V('C07/N3/get_prob/sum', [li, L], 'probabilities sum to %s' % tot))
+            for L2 in (1, 2, 3):
+                lists2 = dom.commuting_lists(N, L2)
+                for k2 in range(3):
+                    idx2 = lists2[(li * 7 + k2 * 131 + L2) % len(lists2)]
+                    sg2 = [2 * ((li + k2 + j) % 2) for j in range(L2)]
+                    other = lib.pc.stabilizer_state(lib.PL([G[i] for i in idx2], sg2))
+                    rho2 = ref.rho_from_stabs([G[i] for i in idx2], sg2, N)
+                    if not np.allclose(stab.rho_of(other.gs, other.ps, other.r), rho2):
+                        continue
+                    v = float(st.expect(other))
+                    w = float(np.trace(rho0 @ rho2).real)
+                    n += 1
+                    nt += int(w > 0)
+                    if abs(v - w) > 1e-9:
+                        viol.append(V('C07/N3/overlap/arg-rank%d' % (N - L2), [li, L], 'overlap = %s, Tr(rho sigma) = %s' % (v, w)))
     return {'n': n, 'nt': nt, 'viol': viol}
 
 
@@ -373,9 +400,9 @@ def legs(tier):
     out.append(Leg('live_histories', fn_live, litems, chunk=2,
                    bound='query round -> one in-place operation (each of the %d C05 menu operations, every coin branch) -> query round on the same live object vs a fresh object built from its arrays; N=1 every 3rd tableau, N=2 %s' % (
                        msz, 'one tableau per density matrix' if tier != 'quick' else 'every 3rd density matrix')))
-    if tier != 'quick':
-        n3 = [[li, L] for L in (1, 2, 3) for li in range(0, len(dom.commuting_lists(3, L)), {1: 1, 2: 9, 3: 97}[L])]
-        out.append(Leg('expect_N3', fn_n3, n3, chunk=8, exhaustive=False, supplementary=True, bound='N=3 states from commuting lists (all L=1, every 9th L=2, every 97th L=3)'))
+    st3 = {1: 1, 2: 9, 3: 97} if tier != 'quick' else {1: 3, 2: 37, 3: 397}
+    n3 = [[li, L] for L in (1, 2, 3) for li in range(0, len(dom.commuting_lists(3, L)), st3[L])]
+    out.append(Leg('expect_N3', fn_n3, n3, chunk=4, exhaustive=False, supplementary=True, bound='N=3 states (ranks 2,1,0) from commuting lists: every %dth L=1, %dth L=2, %dth L=3 x complete signed list + imaginary-phase Paulis' % (st3[1], st3[2], st3[3])))
     reps2 = stab.representatives(2, 0)
     out.append(Leg('torch_expect', fn_expect, [[1, i, 'torch'] for i in range(0, 48, 2)] + [[2, i, 'torch'] for i in (reps2 if tier != 'quick' else reps2[::3])], chunk=2,
                    bound='torchclifford: N=1 half of the tableaux, N=2 %s' % ('one tableau per density matrix' if tier != 'quick' else 'every 3rd density matrix')))
